@@ -211,8 +211,19 @@ def main_wrapper(fn, pid: str):
         fn(chk, replay)
     except MachineryFailure as ex:
         chk.fail(str(ex))
-    except Exception:  # noqa: BLE001
-        chk.fail("harness exception: " + traceback.format_exc()[-1500:])
+    except Exception as ex:  # noqa: BLE001
+        # An exception raised INSIDE the library under test (innermost frame in its source tree) while the harness
+        # was using it on input every check handles on the unchanged tree is the library failing, not the machinery.
+        tb = traceback.extract_tb(ex.__traceback__)
+        repo_src = str(Path(os.environ.get("VERIF_REPO", "/repo")).resolve() / "src")
+        inner = tb[-1].filename if tb else ""
+        if inner and str(Path(inner).resolve()).startswith(repo_src) and not isinstance(ex, (ImportError, AttributeError)):
+            where = next((f"{Path(f.filename).name}:{f.lineno}" for f in reversed(tb) if "/harness/" in f.filename), "?")
+            chk.violation(f"{pid}:library-exception:{type(ex).__name__}:{where}", {"traceback": traceback.format_exc()[-1500:]},
+                          f"gotranx raised {type(ex).__name__}: {str(ex)[:200]} on input the check handles on the unchanged tree "
+                          f"(called from {where})")
+        else:
+            chk.fail("harness exception: " + traceback.format_exc()[-1500:])
     code = chk.finish()
     sys.stdout.flush()
     sys.stderr.flush()
